@@ -7,7 +7,8 @@ from . import core, generic
 def check(run):
     run._binary = run.build_harness()
     try:
-        n, s = generic.gen_replay(run, "Flash", "MC_Flash_thorough.cfg" if run.tier == "thorough" else "MC_Flash.cfg", "TestC12", "flash", workers=4, memlimit_gb=24)
+        n, s = generic.gen_replay(run, "Flash", "MC_Flash_thorough.cfg" if run.tier == "thorough" else "MC_Flash.cfg", "TestC12", "flash", workers=4, memlimit_gb=24,
+                                    env={"VERIF_VCAP": "20000000"})  # nearly every case hits one of the two raw-MessagePack findings: all records are needed
     except core.Inconclusive as e:
         if "out of memory" in str(e):
             # the code under test exhausted the address space while decoding a hostile cookie: that is the observation
@@ -24,7 +25,7 @@ def check(run):
     run.nontrivial = s["delivered_intact"] + s["hostile_kinds"]
     run.exhaustive = True
     run.rule = ("TLC enumerates the behaviours of Flash.tla: every message set of <= 2 flash messages / old inputs over key/value classes (plain, separators and quotes, "
-                "unicode, empty, long) and levels {0,1,200}, for a conforming client (net/http + cookiejar over an in-memory listener) and a byte-transparent one, "
+                "unicode, percent escapes, empty, long) and levels {0,65,200}, issued by To / Route / Route with queries / Back, received by a handler that succeeds or fails after reading them (with an error handler that fails as well), for a conforming client (net/http + cookiejar over an in-memory listener) and a byte-transparent one, "
                 "plus hostile cookie kinds (truncation at every byte, announced lengths 2^32-1 / 2^16-1, wrong types, non-MessagePack, empty) and no cookie, with "
                 "what each follow-up request must see (DeliveredOnce is checked on the spec). Hostile decodes are timed and their allocation measured. "
                 "Non-trivial = message sets delivered intact + hostile kinds.")
